@@ -456,7 +456,13 @@ static void prop(Tape &t, Ctx &c) {
             size_t acts = 1 + t.below(3);
             for (size_t i = 0; i < acts && !w.live.empty(); i++) { if (i == 0 || t.coin()) fatal_on(t.below(w.live.size()), t.coin(), (unsigned) t.below(8)); else close_live(t.below(w.live.size()), t.coin()); }
             while (!w.live.empty() && t.chance(2, 3)) close_live(t.below(w.live.size()), t.coin());
-            honest_resume(0, x);
+            if (t.chance(2, 3)) honest_resume(0, x);
+            else {   // what a cleared entry looks like from outside: slot index followed by zeros, presented by the client that knows the secret
+                install(w, 0, x); Bytes id = w.creds[x].ident; for (size_t i = 4; i < id.size(); i++) id[i] = 0;
+                c14_sid_set_id(w.cl[0].sid, id.data(), (int) id.size()); w.cl[0].dirty = true;
+                w.note(fmt("Id-zero-tail(c0,%s)", cred_str(w, x).c_str()));
+                do_attempt(0, x, matching_hello(w.creds[x]), "Id-zero-tail", "altered-session-id-resumes", false, false, nullptr, "Id-zero-tail");
+            }
         }
         w.force_keep = -1;
     } else if (script == 9) {
